@@ -17,8 +17,9 @@ LEVEL = "exploration"
 TECHNIQUE = "bounded-exhaustive challenge/response histories against a reference client + provenance oracle"
 RULE = ("a case = scenario x response variant x password used.  Scenario: factory algorithm {md5, sha, MD5} x driving "
         "route {cred factory with bytes address, with str address, twisted.web wrapper} x (address the challenge was "
-        "issued to, address the response comes from) in {same, other, none/none, A/none, none/A} x clock advance "
-        "{0, lifetime-1, lifetime+1, 3*lifetime} x issue time {7-digit integer, 8-digit with fraction}; a second "
+        "issued to, address the response comes from) in {same, other, none/none, A/none, none/A} x true age "
+        "of the challenge at the response {0, lifetime-1, lifetime-0.5, lifetime-0.25, lifetime+1.25, 3*lifetime} x "
+        "issue time {7-digit whole second, the same +0.25, 8-digit +0.75} (clock not aligned to whole seconds); a second "
         "challenge of the same factory and one of a second factory are always outstanding.  Variant: 6 header layouts, "
         "and for each of the 10 response fields {missing, empty, empty-unquoted, one character replaced at "
         "first/middle/last position by another plain character or by one of quote comma equals backslash 0x80 NUL LF CR, "
@@ -31,22 +32,23 @@ RULE = ("a case = scenario x response variant x password used.  Scenario: factor
         "lifetime; otherwise decode raises LoginFailed or checkPassword is False; no other exception ever.  Where the "
         "statement does not decide (realm/algorithm echo altered, qop omitted) only the exception rule is judged.  "
         "non-trivial = distinct (scenario class, variant) whose outcome is not a plain accept")
-BOUNDS = {"quick": "360 scenarios x 608 single variants x 2 passwords; all field-disjoint pairs of 121 representative "
+BOUNDS = {"quick": "810 scenarios x 608 single variants x 2 passwords; all field-disjoint pairs of 121 representative "
                    "variants (one per mutation class) in 6 scenarios",
-          "thorough": "360 scenarios x 608 single variants x 2 passwords; all field-disjoint pairs of 121 representative "
+          "thorough": "810 scenarios x 608 single variants x 2 passwords; all field-disjoint pairs of 121 representative "
                       "variants in 54 scenarios"}
 ASSUMPTIONS = [
     "the clock is DigestCredentialFactory._getTime (instance attribute set by the harness); random bytes come from "
     "credentials.secureRandom rebound to a counter-based deterministic source",
-    "the lifetime is probed one second inside and one second outside, never on the boundary",
+    "inside the lifetime = true age strictly below it (probed down to a quarter second below, with fractional issue "
+    "and arrival times); outside = at least one second above it; the boundary second itself is never probed",
     "the reference client is RFC 2617 arithmetic on hashlib written in the check; forged opaques are built from the "
     "documented-in-source layout digest-base64(nonce,address,time); if an issued opaque does not have that layout the "
     "forgeries that need it are skipped (counted)",
     "unquoted values, a missing algorithm and an upper-case algorithm are accepted because the project's own tests "
     "document them as intended (test_responseWithoutQuotes, test_md5DefaultAlgorithm, test_caseInsensitiveAlgorithm)",
 ]
-MIN = {"quick": {"evaluations": 300000, "nontrivial": 150000, "outcomes": 8},
-       "thorough": {"evaluations": 700000, "nontrivial": 450000, "outcomes": 8}}
+MIN = {"quick": {"evaluations": 300000, "nontrivial": 150000, "outcomes": 6},
+       "thorough": {"evaluations": 700000, "nontrivial": 450000, "outcomes": 6}}
 
 REALM = b"test realm"
 USER = b"user"
@@ -56,7 +58,7 @@ URI = b"/dir/index.html?a=1,2"
 URI_PLAIN = b"/dir/index.html"
 ADDR_A = "10.0.0.1"
 ADDR_B = "::1"
-T0S = [1000000.0, 12345678.75]
+T0S = [1000000.0, 1000000.25, 12345678.75]
 ALGOS = [b"md5", b"sha", b"MD5"]
 FIELDS = ["username", "realm", "nonce", "uri", "response", "algorithm", "cnonce", "opaque", "qop", "nc"]
 UNQUOTED_RFC = {"algorithm", "qop", "nc"}
@@ -473,7 +475,9 @@ def scenario_ctx(sc):
     algo, route, issue_to, host, dt_name, t0 = sc
     w = World(algo, route)
     L = w.lifetime
-    dt = {"0": 0, "L-1": L - 1, "L+1": L + 1, "3L": 3 * L}[dt_name]
+    # true age of the challenge when the response arrives; strictly below the lifetime = inside, at least one second
+    # above = outside; the second at the boundary itself is never probed
+    dt = {"0": 0, "L-1": L - 1, "L-0.5": L - 0.5, "L-0.25": L - 0.25, "L+1": L + 1, "L+1.25": L + 1.25, "3L": 3 * L}[dt_name]
     w.clock[0] = t0 - 5
     w.challenge(w.f, ADDR_B)                       # an older, unrelated challenge
     w.clock[0] = t0
@@ -481,10 +485,10 @@ def scenario_ctx(sc):
     w.clock[0] = t0 + dt
     chal2 = w.challenge(w.f, host)                 # valid by itself for the presenting address, now
     chalX = w.challenge(w.fx, host)                # valid under another factory's private key
-    ctx = {"world": w, "chal": chal, "chal2": chal2, "chalX": chalX,
+    ctx = {"world": w, "chal": chal, "chal2": chal2, "chalX": chalX, "age": dt_name,
            "host": None if host is None else host.encode("ascii"), "now": int(t0 + dt),
-           "valid": issue_to == host and dt <= L,
-           "why_invalid": None if (issue_to == host and dt <= L) else ("other-address" if issue_to != host else "expired")}
+           "valid": issue_to == host and dt < L,
+           "why_invalid": None if (issue_to == host and dt < L) else ("other-address" if issue_to != host else "expired")}
     return ctx
 
 
@@ -592,7 +596,18 @@ def judge(ctx, variants, pw_used, host, singles=None):
                 why = "wrong-password"
             bad.append(("digest:accepted:" + why, dict(det, password_checked=pw_checked)))
         elif should and not accepted:
-            bad.append(("digest:rejected-valid-response:" + cls, dict(det, password_checked=pw_checked)))
+            why = cls
+            if variants[0].tag != "layout:rfc" or len(variants) > 1:
+                base = ctx.setdefault("baseline", {})
+                if pw_used not in base:        # does this scenario reject even the plain response?
+                    plain = next(v for v in ctx["variants"] if v.tag == "layout:rfc")
+                    b = attempt(ctx["world"], make_raw(ctx, (plain,), pw_used)[0], host)
+                    base[pw_used] = not (b[0] == "checked" and b[1 if pw_used == PW_R else 2])
+                if base[pw_used]:
+                    why = "layout:rfc"
+            if why == "layout:rfc" and ctx.get("age") not in (None, "0"):
+                why = "plain-response-inside-lifetime"
+            bad.append(("digest:rejected-valid-response:" + why, dict(det, password_checked=pw_checked, age=ctx.get("age"))))
     return bad, outcome, res
 
 
@@ -600,7 +615,7 @@ def judge(ctx, variants, pw_used, host, singles=None):
 
 ROUTES = ["cred-bytes", "cred-str", "web"]
 ADDR_PAIRS = [(ADDR_A, ADDR_A), (ADDR_A, ADDR_B), (None, None), (ADDR_A, None), (None, ADDR_A), (ADDR_B, ADDR_B)]
-DTS = ["0", "L-1", "L+1", "3L"]
+DTS = ["0", "L-1", "L-0.5", "L-0.25", "L+1.25", "3L"]
 
 
 def scenarios():
@@ -631,7 +646,7 @@ def pair_scenarios(tier):
     base = [sc for sc in scenarios() if sc[2] == ADDR_A and sc[3] == ADDR_A and sc[5] == T0S[0]]
     if tier == "quick":
         return [sc for sc in base if sc[4] == "0" and sc[1] != "cred-str"]
-    return [sc for sc in scenarios() if sc[5] == T0S[1] and sc[4] in ("0", "L+1") and sc[1] != "cred-str"]
+    return [sc for sc in scenarios() if sc[5] == T0S[-1] and sc[4] in ("0", "L+1.25") and sc[1] != "cred-str"]
 
 
 def shards(tier, seed):
@@ -654,6 +669,7 @@ def run_shard(shard, tier, seed):
     ctx = scenario_ctx(sc)
     try:
         V = build_variants(ctx)
+        ctx["variants"] = V
         host = sc[3]
         scclass = (sc[0], sc[1], sc[2] == sc[3], sc[2] is None, sc[3] is None, sc[4])
         singles = {}
@@ -705,7 +721,8 @@ def replay(w):
     sc = (sc[0].encode("ascii"),) + sc[1:]
     ctx = scenario_ctx(sc)
     try:
-        V = {v.tag: v for v in build_variants(ctx)}
+        ctx["variants"] = build_variants(ctx)
+        V = {v.tag: v for v in ctx["variants"]}
         vs = tuple(V[t] for t in w["variants"])
         pw = w["password_used"].encode()
         singles = {}
